@@ -352,6 +352,7 @@ type ledgerWorld struct {
 	assets    []AssetSpec
 	nonce     uint64
 	slashN    int
+	curDec    uint32 // decimals of the asset the current op is about
 	lastSlash *slashEvent
 	huge      bool // extreme amounts (2^64..2^200); such histories never reach an epoch end (see C11 findings F-11f/g)
 	gDep      map[string]*big.Int
@@ -370,10 +371,11 @@ func bigPow10(n int) *big.Int { return new(big.Int).Exp(big.NewInt(10), big.NewI
 // amount generator: boundary-biased
 func (w *ledgerWorld) amount(near *big.Int) sdkmath.Int {
 	x := w.amountRaw(near)
-	// outside `huge` histories stay below ~10^21 base units: the vote-power code of the epoch end
-	// cannot digest more (Int64 out of bound / Int overflow in Begin/EndBlock: C11 findings)
-	if !w.huge && x.BigInt().Cmp(bigPow10(21)) > 0 {
-		return sdkmath.NewIntFromBigInt(new(big.Int).Mod(x.BigInt(), bigPow10(21)))
+	// outside `huge` histories stay below ~10^12 tokens (10^(12+decimals) base units) per op: the
+	// vote-power code of the epoch end cannot digest a USD value beyond int64 (Int64 out of bound /
+	// Int overflow in Begin/EndBlock: C11 findings F-11f/g)
+	if lim := bigPow10(12 + int(w.curDec)); !w.huge && x.BigInt().Cmp(lim) > 0 {
+		return sdkmath.NewIntFromBigInt(new(big.Int).Mod(x.BigInt(), lim))
 	}
 	return x
 }
@@ -544,6 +546,9 @@ func domLedger(env *Env) error {
 		if c.Halted != "" {
 			env.Violate("C11.halt", "halt:"+strings.SplitN(c.Halted, ":", 2)[0], "block processing panicked: "+c.Halted, w.hist)
 		}
+		if hi == 0 && c.Halted == "" && env.Str("f03a", "0") == "1" {
+			w.directedNonceCollision()
+		}
 		env.Report.Histories++
 		if kinds["undelegate.ok"] > 0 && kinds["complete"] > 0 {
 			env.DistinctKey(fmt.Sprintf("h%d:%d:%d:%d", hi, nops, kinds["undelegate.ok"], kinds["complete"]))
@@ -592,6 +597,7 @@ func (w *ledgerWorld) step(prev *ledgerSnap, kinds map[string]int) *ledgerSnap {
 	st := w.stakers[r.Intn(len(w.stakers))]
 	ai := r.Intn(len(w.assets))
 	asset := c.AssetIDs[ai]
+	w.curDec = w.assets[ai].Decimals
 	sid := StakerIDOf(c.LzID, st.Eth)
 	op := w.ops[r.Intn(len(w.ops))]
 	var after *ledgerSnap
@@ -666,6 +672,7 @@ func (w *ledgerWorld) step(prev *ledgerSnap, kinds map[string]int) *ledgerSnap {
 			for j, id := range c.AssetIDs {
 				if id == f[1] {
 					ai, asset = j, id
+					w.curDec = w.assets[j].Decimals
 				}
 			}
 			op = sdk.MustAccAddressFromBech32(f[2])
@@ -964,6 +971,90 @@ func (w *ledgerWorld) slash(prev *ledgerSnap, op sdk.AccAddress) *ledgerSnap {
 	w.checkDelta(prev, after, "slash", nil, false)
 	after.checkInvariants(w.env, w.hist, w.orphans)
 	return after
+}
+
+// directedNonceCollision replays finding F-03a on the real keepers: one staker undelegates from two
+// operators with ONE nonce and ONE tx hash in the same block (what a MsgUndelegation with two
+// operators does, and what two stakers with equal account sequences do). Both requests are
+// accepted, but the pending-by-height index and the staker index are keyed by the nonce only, so the
+// second write overwrites the first record's index entries: the first record is never released.
+// It is the last thing a history does (the state is damaged afterwards), and it is not fed to the model
+// diff as an op sequence the model must follow blindly: the model reproduces it too (C03_collision_loses_record).
+func (w *ledgerWorld) directedNonceCollision() {
+	c := w.c
+	if len(c.Operators) < 2 {
+		return
+	}
+	st := NewActor(c.Cfg.Seed, "f03a-staker", 0)
+	sid := StakerIDOf(c.LzID, st.Eth)
+	asset, aaddr := c.AssetIDs[0], w.assetAddr(0)
+	dep := sdkmath.NewInt(1000)
+	run := func(name, opLine string, f func(ctx sdk.Context) error) bool {
+		err := c.CachedDo(f)
+		after := w.snapAndCheck()
+		res := "ok"
+		if err != nil {
+			res = "rej"
+		}
+		w.emit(opLine, res+" "+after.dump())
+		w.env.Outcome("f03a." + name + "." + ledgerErrClass(err))
+		return err == nil
+	}
+	ok := run("deposit", fmt.Sprintf("ledger.deposit %s %s %s", sid, asset, dep), func(ctx sdk.Context) error {
+		return c.App.AssetsKeeper.PerformDepositOrWithdraw(ctx, &assetskeeper.DepositWithdrawParams{
+			ClientChainLzID: c.LzID, Action: assetstypes.DepositLST, StakerAddress: st.Eth.Bytes(), AssetsAddress: aaddr, OpAmount: dep})
+	})
+	for i := 0; i < 2 && ok; i++ {
+		op := c.Operators[i].Acc
+		x := sdkmath.NewInt(400)
+		ok = run("delegate", fmt.Sprintf("ledger.delegate %s %s %s %s", sid, asset, op, x), func(ctx sdk.Context) error {
+			return c.App.DelegationKeeper.DelegateTo(ctx, &delegationtypes.DelegationOrUndelegationParams{
+				ClientChainID: c.LzID, AssetsAddress: aaddr, OperatorAddress: op, StakerAddress: st.Eth.Bytes(), OpAmount: x})
+		})
+	}
+	if !ok {
+		return
+	}
+	nonce := uint64(1 << 40)
+	hash := common.BytesToHash(detBytes(77, "f03a", 0))
+	for i := 0; i < 2 && ok; i++ {
+		op := c.Operators[i].Acc
+		x := sdkmath.NewInt(100)
+		var held int
+		err := c.CachedDo(func(ctx sdk.Context) error {
+			return c.App.DelegationKeeper.UndelegateFrom(ctx, &delegationtypes.DelegationOrUndelegationParams{
+				ClientChainID: c.LzID, AssetsAddress: aaddr, OperatorAddress: op, StakerAddress: st.Eth.Bytes(), OpAmount: x,
+				LzNonce: nonce, TxHash: hash})
+		})
+		if err == nil {
+			rk := delegationtypes.GetUndelegationRecordKey(uint64(c.Header.Height), nonce, hash.String(), op.String())
+			if c.App.DelegationKeeper.GetUndelegationHoldCount(c.Ctx, rk) > 0 {
+				held = 1
+			}
+		}
+		after := w.snapAndCheck()
+		res := "ok"
+		if err != nil {
+			res, ok = "rej", false
+		}
+		w.emit(fmt.Sprintf("ledger.undelegate %s %s %s %s %d %s %d", sid, asset, op, x, nonce, hash.String(), held), res+" "+after.dump())
+		w.env.Outcome("f03a.undelegate." + ledgerErrClass(err))
+	}
+	if !ok {
+		return
+	}
+	s := w.snapAndCheck()
+	w.env.Eval("C03.directed-nonce-collision")
+	orphans := 0
+	for k, r := range s.recs {
+		if r.nonce == nonce && s.pidx[string(delegationtypes.GetPendingUndelegationRecordKey(r.complete, r.nonce))] != k {
+			orphans++
+		}
+	}
+	if orphans > 0 {
+		w.env.Violate("C03.index", "F-03a:nonce-collision-orphans-record",
+			"two accepted undelegations with one nonce in one block: the first record is no longer reachable from the pending-by-height index and will never be released", w.hist)
+	}
 }
 
 type slashEvent struct {
